@@ -66,6 +66,53 @@ pub fn default_simplify(sc: &Scenario, i: usize) -> Vec<Op> {
             c.faults.clear();
             out.push(Op::Line(c));
         }
+        // a shorter payload and a plain rendering, checksum recomputed (only for sentences that
+        // lex with a valid checksum, so a line whose corruption matters is never "repaired")
+        if l.sent.is_none() || l.role == Role::Traffic {
+            if let Some(lx) = lex(&l.bytes) {
+                if lx.fields.len() == 7 && lx.value == Some(xor(lx.body(&l.bytes)) as u32) {
+                    let payload = lx.field(&l.bytes, 5).unwrap_or(b"").to_vec();
+                    let mut cuts: Vec<usize> = vec![];
+                    if payload.len() > 8 {
+                        cuts.push(payload.len() / 2);
+                    }
+                    if payload.len() > 2 {
+                        cuts.push(2);
+                    }
+                    if payload.len() > 1 {
+                        cuts.push(1);
+                    }
+                    for cut in cuts {
+                        let mut c = l.clone();
+                        c.bytes = rewrite_fields(&l.bytes, &lx, &[(5, payload[..cut].to_vec())]);
+                        c.orig = None;
+                        c.sent = None;
+                        out.push(Op::Line(c));
+                    }
+                    // plain style: no tag block, '!' start, no padding, two-digit checksum, no tail
+                    let num = |i: usize| -> Option<u8> {
+                        std::str::from_utf8(lx.field(&l.bytes, i)?).ok()?.parse::<u8>().ok()
+                    };
+                    if let (Some(n), Some(k), Some(fill)) = (num(1), num(2), num(6)) {
+                        let idf = lx.field(&l.bytes, 3).unwrap_or(b"");
+                        let id = if idf.is_empty() { Some(None) } else { num(3).map(Some) };
+                        if let (Some(id), Some(addr)) = (id, lx.field(&l.bytes, 0)) {
+                            if addr.len() == 5 {
+                                let mut a = [0u8; 5];
+                                a.copy_from_slice(addr);
+                                let plain = make_line(&a, n, k, id, lx.field(&l.bytes, 4).unwrap_or(b""), &payload, fill);
+                                if plain != l.bytes {
+                                    let mut c = l.clone();
+                                    c.bytes = plain;
+                                    c.orig = None;
+                                    out.push(Op::Line(c));
+                                }
+                            }
+                        }
+                    }
+                }
+            }
+        }
         if l.decode {
             let mut c = l.clone();
             c.decode = false;
